@@ -110,3 +110,85 @@ Proof.
     | ]).
   apply Forall_nil.
 Qed.
+
+(** ** memory opcodes: the access made by the emitted instruction(s) is the ISA access.  R10 holds the packet address (set
+    by the prologue); absolute / indirect loads agree with the ISA for non-negative immediates (the displacement is the
+    sign-extended immediate, the ISA adds the zero-extended one; a negative immediate is out of bounds for the ISA) *)
+From RbpfV Require Import WellFormed ClMemProofs.
+
+Definition jit_access_matches (o : Z) (i : insn) (R : regs) (d s : Z) : Prop :=
+  exists a, xrun_mem (gen_jit_mem o i d s) R = Some a /\
+    x_kind a = isa_kind o /\ x_bytes a = size_of o /\
+    x_addr a = isa_addr o i (R d) (R s) (R 10) /\
+    x_val a = isa_val o i (R s) /\
+    x_target a = (if o mod 8 =? 0 then 0 else if o mod 8 =? 1 then d else 16).
+
+Theorem jit_mem_arms_packet i R d s :
+  (forall r, 0 <= R r < 2 ^ 64) -> s <> 11 -> - 2 ^ 15 <= off i < 2 ^ 15 -> 0 <= imm i < 2 ^ 31 ->
+  Forall (fun o => jit_access_matches o i R d s) [0x20; 0x28; 0x30; 0x38; 0x40; 0x48; 0x50; 0x58].
+Proof.
+  intros HR Hs Ho Hi. pose proof (HR d) as Rd. pose proof (HR s) as Rs. pose proof (HR 10) as R10.
+  assert (CO : cast I32 (off i) = off i) by (apply norm_idem; unfold in_ty, tmin, tmax; cbn [signed bits]; fold_pows; lia).
+  assert (U32 : u32 (imm i) = imm i) by (unfold u32; apply Z.mod_small; fold_pows; lia).
+  repeat (apply Forall_cons;
+    [ match goal with |- jit_access_matches ?o _ _ _ _ =>
+        unfold jit_access_matches, isa_kind, isa_addr, isa_val, is_xadd, op_xadd_w, op_xadd_dw, size_of;
+        let v0 := eval vm_compute in (o mod 8) in change (o mod 8) with v0;
+        let v1 := eval vm_compute in (o / 32) in change (o / 32) with v1;
+        let v2 := eval vm_compute in ((o / 8) mod 4) in change ((o / 8) mod 4) with v2;
+        let v3 := eval vm_compute in (o =? 195) in change (o =? 195) with v3;
+        let v4 := eval vm_compute in (o =? 219) in change (o =? 219) with v4;
+        cbv beta iota zeta;
+        unfold gen_jit_mem;
+        match goal with |- exists a, xrun_mem ?L ?R = _ /\ _ => let L2 := eval simpl in L in change L with L2 end;
+        match goal with |- exists a, xrun_mem (?f ?i ?d ?s) ?R = _ /\ _ => unfold f end
+      end;
+      cbn [xrun_mem xstep xaccess_of]; unfold binop, wr, opw;
+      repeat match goal with |- context [?a =? ?b] =>
+        lazymatch a with Zpos _ => idtac | Z0 => idtac end; lazymatch b with Zpos _ => idtac | Z0 => idtac end;
+        let v := eval vm_compute in (a =? b) in change (a =? b) with v end;
+      cbv iota beta; cbn [orb andb];
+      eexists; split; [reflexivity|]; cbn [x_kind x_bytes x_addr x_val x_target];
+      rewrite ?CO, ?U32, ?rset_same, ?(rset_other _ 11 _ s Hs), ?rset_same;
+      unfold u64;
+      repeat split; try reflexivity;
+      try (rewrite ?(Z.mod_small (R 10) (2 ^ 64)), ?(Z.mod_small (R s) (2 ^ 64)) by assumption;
+           rewrite ?Zplus_mod_idemp_l, ?Zplus_mod_idemp_r; first [reflexivity | f_equal; lia])
+    | ]).
+  apply Forall_nil.
+Qed.
+
+Theorem jit_mem_arms_regs i R d s :
+  (forall r, 0 <= R r < 2 ^ 64) -> s <> 11 -> - 2 ^ 15 <= off i < 2 ^ 15 -> - 2 ^ 31 <= imm i < 2 ^ 31 ->
+  Forall (fun o => jit_access_matches o i R d s) [0x61; 0x69; 0x71; 0x79; 0x62; 0x6a; 0x72; 0x7a; 0x63; 0x6b; 0x73; 0x7b; 0xc3; 0xdb].
+Proof.
+  intros HR Hs Ho Hi. pose proof (HR d) as Rd. pose proof (HR s) as Rs. pose proof (HR 10) as R10.
+  assert (CO : cast I32 (off i) = off i) by (apply norm_idem; unfold in_ty, tmin, tmax; cbn [signed bits]; fold_pows; lia).
+  assert (U32 : True) by exact I.
+  repeat (apply Forall_cons;
+    [ match goal with |- jit_access_matches ?o _ _ _ _ =>
+        unfold jit_access_matches, isa_kind, isa_addr, isa_val, is_xadd, op_xadd_w, op_xadd_dw, size_of;
+        let v0 := eval vm_compute in (o mod 8) in change (o mod 8) with v0;
+        let v1 := eval vm_compute in (o / 32) in change (o / 32) with v1;
+        let v2 := eval vm_compute in ((o / 8) mod 4) in change ((o / 8) mod 4) with v2;
+        let v3 := eval vm_compute in (o =? 195) in change (o =? 195) with v3;
+        let v4 := eval vm_compute in (o =? 219) in change (o =? 219) with v4;
+        cbv beta iota zeta;
+        unfold gen_jit_mem;
+        match goal with |- exists a, xrun_mem ?L ?R = _ /\ _ => let L2 := eval simpl in L in change L with L2 end;
+        match goal with |- exists a, xrun_mem (?f ?i ?d ?s) ?R = _ /\ _ => unfold f end
+      end;
+      cbn [xrun_mem xstep xaccess_of]; unfold binop, wr, opw;
+      repeat match goal with |- context [?a =? ?b] =>
+        lazymatch a with Zpos _ => idtac | Z0 => idtac end; lazymatch b with Zpos _ => idtac | Z0 => idtac end;
+        let v := eval vm_compute in (a =? b) in change (a =? b) with v end;
+      cbv iota beta; cbn [orb andb];
+      eexists; split; [reflexivity|]; cbn [x_kind x_bytes x_addr x_val x_target];
+      rewrite ?CO, ?rset_same, ?(rset_other _ 11 _ s Hs), ?rset_same;
+      unfold u64;
+      repeat split; try reflexivity;
+      try (rewrite ?(Z.mod_small (R 10) (2 ^ 64)), ?(Z.mod_small (R s) (2 ^ 64)) by assumption;
+           rewrite ?Zplus_mod_idemp_l, ?Zplus_mod_idemp_r; first [reflexivity | f_equal; lia])
+    | ]).
+  apply Forall_nil.
+Qed.
